@@ -1493,27 +1493,58 @@ static VoronoiDensityGrid *vor = nullptr;
 static Box<> vor_box;
 static std::vector< double > vor_xt, vor_dt;
 
-// run f in a forked child with a time limit; the child may print ORACLE lines.  true = it came
-// back.  A construction that aborts on its own asserts or does not finish in time (degenerate
-// clustered generator sets can do that) is reported as "gave-up", not as a property failure.
-template < typename F > static bool run_child(F f, const unsigned seconds) {
+// The large Voronoi constructions run in a fresh process (this executable started again with
+// C16_CHILD=1, the operation on its stdin, a time limit): a construction that aborts on its own
+// asserts or does not finish in time (degenerate clustered generator sets can do that) is reported
+// as "gave-up", not as a property failure.  (A plain fork() is not safe here: the grid
+// constructions use OpenMP threads, and a forked child of a process with a live thread pool hangs.)
+static std::string join_words(const std::vector< std::string > &w) {
+  std::string s;
+  for (size_t i = 0; i < w.size(); ++i)
+    s += (i ? " " : "") + w[i];
+  return s;
+}
+static bool in_child() { return getenv("C16_CHILD") != nullptr; }
+
+// returns true if the child printed its answer line (which is printed here as well, after the
+// ORACLE lines of the child, renumbered to the current line)
+static bool run_self(const std::string &line, const unsigned seconds, const std::string &answer_prefix) {
+  char exe[4096];
+  const ssize_t n = readlink("/proc/self/exe", exe, sizeof(exe) - 1);
+  if (n <= 0)
+    return false;
+  exe[n] = 0;
+  char tmpl[] = "/tmp/c16w_opXXXXXX";
+  const int fd = mkstemp(tmpl);
+  if (fd < 0)
+    return false;
+  const std::string text = line + "\n";
+  if (write(fd, text.c_str(), text.size()) < 0) {
+  }
+  close(fd);
+  std::ostringstream cmd;
+  cmd << "C16_CHILD=1 timeout " << seconds << " '" << exe << "' < " << tmpl << " 2>/dev/null";
   std::cout.flush();
   fflush(stdout);
-  const pid_t pid = fork();
-  if (pid == 0) {
-    std::signal(SIGALRM, SIG_DFL);
-    alarm(seconds);
-    if (!getenv("C16_DEBUG") && !freopen("/dev/null", "w", stderr)) {
+  FILE *pp = popen(cmd.str().c_str(), "r");
+  bool done = false;
+  if (pp) {
+    char *buf = nullptr;
+    size_t cap = 0;
+    while (getline(&buf, &cap, pp) > 0) {
+      std::string l(buf);
+      while (!l.empty() && (l[l.size() - 1] == '\n' || l[l.size() - 1] == '\r'))
+        l.erase(l.size() - 1);
+      if (l.compare(0, 14, "ORACLE line=1 ") == 0)
+        oracle(l.substr(14));
+      else if (l.compare(0, answer_prefix.size(), answer_prefix) == 0)
+        done = true;
     }
-    f();
-    std::cout.flush();
-    fflush(stdout);
-    _exit(0);
+    free(buf);
+    pclose(pp);
   }
-  int st = 0;
-  if (pid < 0 || waitpid(pid, &st, 0) < 0)
-    return false;
-  return WIFEXITED(st) && WEXITSTATUS(st) == 0;
+  unlink(tmpl);
+  return done;
 }
 
 typedef std::map< uint64_t, double > FaceMap; // real neighbour -> total face area
@@ -1610,17 +1641,18 @@ static void op_vor(const std::vector< std::string > &w) {
     std::vector< CoordinateVector<> > gens;
     for (size_t q = 11; q + 2 < w.size(); q += 3)
       gens.push_back(CoordinateVector<>(dbl(w[q]), dbl(w[q + 1]), dbl(w[q + 2])));
-    const bool back = run_child(
-        [&]() {
-          HarnessGeneratorDistribution *gen = new HarnessGeneratorDistribution();
-          gen->pos = gens;
-          VoronoiDensityGrid grid(gen, box, type, (uint_fast8_t)lloyd, CoordinateVector< bool >(false));
-          HarnessDensityFunction df;
-          std::pair< cellsize_t, cellsize_t > block = std::make_pair(0, grid.get_number_of_cells());
-          grid.initialize(block, df);
-          vor_geometry(type, *grid._voronoi_grid, grid._generator_positions, box);
-        },
-        45);
+    bool back = true;
+    if (in_child()) {
+      HarnessGeneratorDistribution *gen = new HarnessGeneratorDistribution();
+      gen->pos = gens;
+      VoronoiDensityGrid grid(gen, box, type, (uint_fast8_t)lloyd, CoordinateVector< bool >(false));
+      HarnessDensityFunction df;
+      std::pair< cellsize_t, cellsize_t > block = std::make_pair(0, grid.get_number_of_cells());
+      grid.initialize(block, df);
+      vor_geometry(type, *grid._voronoi_grid, grid._generator_positions, box);
+    } else {
+      back = run_self(join_words(w), 45, "vor geom ");
+    }
     std::cout << "vor geom " << gens.size() << (back ? " done" : " gave-up") << "\n";
     return;
   }
@@ -1630,47 +1662,48 @@ static void op_vor(const std::vector< std::string > &w) {
     std::vector< CoordinateVector<> > gens;
     for (size_t q = 9; q + 2 < w.size(); q += 3)
       gens.push_back(CoordinateVector<>(dbl(w[q]), dbl(w[q + 1]), dbl(w[q + 2])));
-    const bool back = run_child(
-        [&]() {
-          const uint64_t nc = gens.size();
-          VoronoiGrid *go = VoronoiGridFactory::generate("Old", gens, box, CoordinateVector< bool >(false));
-          go->compute_grid();
-          VoronoiGrid *gn = VoronoiGridFactory::generate("New", gens, box, CoordinateVector< bool >(false));
-          gn->compute_grid();
-          vor_geometry("Old", *go, gens, box);
-          vor_geometry("New", *gn, gens, box);
-          const double bv = box.get_sides().x() * box.get_sides().y() * box.get_sides().z();
-          const double a0 = std::pow(bv, 2. / 3.);
-          bool vols = true, ngbs = true;
-          const std::vector< FaceMap > fo = vor_face_maps(*go, nc), fn = vor_face_maps(*gn, nc);
-          for (uint64_t c = 0; c < nc; ++c) {
-            const double vo = go->get_volume(c), vn = gn->get_volume(c);
-            // (Old against New: the tolerances of the old construction, see vor_geometry)
-            if (!(std::fabs(vo - vn) <= 1.e-5 * std::max(vo, vn) + 1.e-10 * bv)) {
-              if (getenv("C16_DEBUG"))
-                fprintf(stderr, "vol c=%lu old %.17g new %.17g rel %.3e\n", (unsigned long)c, vo, vn, (vo - vn) / vn);
-              vols = false;
-            }
-            for (int dirn = 0; dirn < 2; ++dirn) {
-              const FaceMap &x = dirn ? fn[c] : fo[c], &y = dirn ? fo[c] : fn[c];
-              for (FaceMap::const_iterator it = x.begin(); it != x.end(); ++it) {
-                if (!(it->second > 1.e-7 * a0))
-                  continue;
-                FaceMap::const_iterator o = y.find(it->first);
-                if (o == y.end() || !(std::fabs(o->second - it->second) <= 1.e-3 * std::max(o->second, it->second) + 1.e-8 * a0)) {
-                  if (getenv("C16_DEBUG"))
-                    fprintf(stderr, "both dirn=%d c=%lu j=%lu A=%.17g other=%.17g a0=%g\n", dirn, (unsigned long)c, (unsigned long)it->first, it->second, o == y.end() ? -1. : o->second, a0);
-                  ngbs = false;
-                }
-              }
-            }
+    bool back = true;
+    if (in_child()) {
+    const uint64_t nc = gens.size();
+    VoronoiGrid *go = VoronoiGridFactory::generate("Old", gens, box, CoordinateVector< bool >(false));
+    go->compute_grid();
+    VoronoiGrid *gn = VoronoiGridFactory::generate("New", gens, box, CoordinateVector< bool >(false));
+    gn->compute_grid();
+    vor_geometry("Old", *go, gens, box);
+    vor_geometry("New", *gn, gens, box);
+    const double bv = box.get_sides().x() * box.get_sides().y() * box.get_sides().z();
+    const double a0 = std::pow(bv, 2. / 3.);
+    bool vols = true, ngbs = true;
+    const std::vector< FaceMap > fo = vor_face_maps(*go, nc), fn = vor_face_maps(*gn, nc);
+    for (uint64_t c = 0; c < nc; ++c) {
+      const double vo = go->get_volume(c), vn = gn->get_volume(c);
+      // (Old against New: the tolerances of the old construction, see vor_geometry)
+      if (!(std::fabs(vo - vn) <= 1.e-5 * std::max(vo, vn) + 1.e-10 * bv)) {
+        if (getenv("C16_DEBUG"))
+          fprintf(stderr, "vol c=%lu old %.17g new %.17g rel %.3e\n", (unsigned long)c, vo, vn, (vo - vn) / vn);
+        vols = false;
+      }
+      for (int dirn = 0; dirn < 2; ++dirn) {
+        const FaceMap &x = dirn ? fn[c] : fo[c], &y = dirn ? fo[c] : fn[c];
+        for (FaceMap::const_iterator it = x.begin(); it != x.end(); ++it) {
+          if (!(it->second > 1.e-7 * a0))
+            continue;
+          FaceMap::const_iterator o = y.find(it->first);
+          if (o == y.end() || !(std::fabs(o->second - it->second) <= 1.e-3 * std::max(o->second, it->second) + 1.e-8 * a0)) {
+            if (getenv("C16_DEBUG"))
+              fprintf(stderr, "both dirn=%d c=%lu j=%lu A=%.17g other=%.17g a0=%g\n", dirn, (unsigned long)c, (unsigned long)it->first, it->second, o == y.end() ? -1. : o->second, a0);
+            ngbs = false;
           }
-          if (!vols)
-            oracle("voronoi-old-and-new-construction-disagree-on-a-cell-volume");
-          if (!ngbs)
-            oracle("voronoi-old-and-new-construction-disagree-on-the-neighbours-of-a-cell");
-        },
-        50);
+        }
+      }
+    }
+    if (!vols)
+      oracle("voronoi-old-and-new-construction-disagree-on-a-cell-volume");
+    if (!ngbs)
+      oracle("voronoi-old-and-new-construction-disagree-on-the-neighbours-of-a-cell");
+    } else {
+      back = run_self(join_words(w), 50, "vor both ");
+    }
     std::cout << "vor both " << gens.size() << (back ? " done" : " gave-up") << "\n";
     return;
   }
